@@ -19,3 +19,4 @@ ASSUMPTIONS = ["stdlib objects the code calls into (ElementTree, re, decimal, da
 
 def run(project, rep):
     rep.run(E.e_rules, project, rep, thorough=(rep.tier == "thorough"))
+    rep.run(E.e_r5_ownership_and_context, project, rep, thorough=(rep.tier == "thorough"))
